@@ -65,7 +65,7 @@ Theorem text_is_character_data : forall c p f i prev s, all_chars s = true -> (l
   exists items n, chars_of items = s /\
     forall fuel T, follow_ok T ->
       p_content (n + fuel)%nat (text_chars f c p i prev s ++ T) =
-      bind (p_content fuel T) (fun '(l, r) => Some (items ++ l, r)).
+      XmlWF.bind (p_content fuel T) (fun '(l, r) => Some (items ++ l, r)).
 Proof. exact text_reads_back. Qed.
 
 (** ** (b) *)
